@@ -2,7 +2,7 @@
 import json
 from vlib import core
 
-NA, NB = 28, 20
+NA, NB = 32, 20
 
 
 def build(ctx):
@@ -40,7 +40,7 @@ def check(ctx):
         "scalars are compared as their native byte image (little-endian host); floats as bit images",
         "truncated decodes (framework B, bounded storage reader) are executed for every prefix of the encoding from exactly sized heap copies, for types with at most one level of variable-length nesting (a garbage count at depth d may loop 65535^d times); only memory safety is required of them (ASan)",
     ]
-    return ctx.finish(rule="28 concrete types of framework A and 20 of framework B x random values (empty containers, embedded NULs, lengths around 255/256, strings of 32768..65535 bytes) ; bytes, decoded value, consumed length, concatenated decode judged against Serialize.tla; every truncation decoded under ASan")
+    return ctx.finish(rule="32 concrete types of framework A (incl. a type with user-declared copy operations that owns containers, in vectors and maps) and 20 of framework B x random values (empty containers, embedded NULs, lengths around 255/256, strings of 32768..65535 bytes) ; bytes, decoded value, consumed length, concatenated decode judged against Serialize.tla; every truncation decoded under ASan")
 
 
 def replay(ctx, path):
